@@ -232,6 +232,12 @@ def run_case(cfg, ctx):
     return
   ctx.count("events." + cls)
   x = np.concatenate([-xp[::-1], xp]).astype(np.float32)   # sorted ascending
+  if cls == "quantized_relu_po2" and mv is not None:
+    # the ReLU variant saturates its straight-through operand at max_value, so positive inputs far beyond the
+    # absorption bound of x + (-x + xq) are still in the domain: the output stays max_value's code
+    big = (float(mv) * 2.0 ** np.array([23.0, 24.5, 30.0, 45.0])).astype(np.float32)
+    big = big[np.isfinite(big)]
+    x = np.concatenate([x, np.sort(big[big > x.max()])]).astype(np.float32)
   if slope:
     # keep slope*|x| inside the absorption bound as well
     pass
